@@ -37,6 +37,15 @@ def run(ck: Check, repo: Repo) -> None:
                      "identically on the description (net_config) from which the clone is built")
     from ._c01_extra import description_idempotent
     description_idempotent(ck, repo, "C04.8")
+    ck.rule("C04.9", "network heads are rebuilt under the names they were built with: build_network_head (construction) and recreate_network (rebuild) call the "
+                     "head builder with the same keyword values — preserve_parameters matches old and new parameters by key, and the key starts with that name")
+    _head_agreement(ck, repo)
+    ck.rule("C04.10", "a description property that can answer from the live sub-modules does so whenever they exist: the stored constructor argument is returned only "
+                      "while the sub-modules have not been built yet")
+    _live_description(ck, repo)
+    ck.rule("C04.11", "a rebuild does not touch the live weights before they are carried over: no function that recreate_network runs re-initialises "
+                      "parameters reached through `self` (only freshly built, still local modules may be initialised)")
+    _no_reinit_of_live(ck, repo)
     pp = repo.fn(MB, "EvolvableModule.preserve_parameters")
     sp = repo.fn("agilerl.modules.cnn", "EvolvableCNN.shrink_preserve_parameters")
     _preserve_common(ck, repo, pp, "C04.1")
@@ -217,6 +226,12 @@ def _preserve_common(ck: Check, repo: Repo, fn: Fn, rule: str) -> None:
               detail=whyb + f"; the layer builders create buffered layers ({users[0]} ...): after a mutation that leaves the architecture unchanged the rebuilt "
                      "network would start from fresh running statistics and compute a different function in eval mode",
               construct=f"{fn.name}: buffers carried over")
+    # train / eval mode: a freshly built network is in training mode; the one it replaces may be in evaluation mode (BatchNorm, dropout, noisy layers)
+    mode = has(fn.node, f"{new_p}.train({old_p}.training)") or has(fn.node, f"{new_p}.train(mode={old_p}.training)")
+    ck.ob(rule, fn, fn.node, mode, f"{fn.name}: the rebuilt network is put into the train / eval mode of the network it replaces",
+          detail="the new network stays in training mode: after module.eval() a mutation that leaves the architecture unchanged makes a BatchNorm CNN use batch statistics "
+                 "again (eval outputs differed by 0.56 in the probe)",
+          construct=f"{fn.name}: mode carried over")
     wextra: Set[str] = set()
     for n in whole:
         for gg, pol, _ in cfg.guards_at(n):
@@ -349,6 +364,128 @@ def _shrink_slices(ck: Check, repo: Repo, fn: Fn) -> None:
         ck.ob("C04.2", fn, n.ast, (len(dims) == 1) == rank1, "one index for 1-D parameters, two leading indices otherwise")
 
 
+def _reinit_sites(fn: Fn) -> List[ast.AST]:
+    """calls of torch initialisers applied to parameters that are reached through self (loop over self[.x].parameters() / named_parameters())"""
+    out = []
+    for lp in [x for x in ast.walk(fn.node) if isinstance(x, (ast.For, ast.comprehension))]:
+        it = lp.iter
+        over_self = isinstance(it, ast.Call) and last_attr(it) in ("parameters", "named_parameters") and dotted(it.func.value).split(".")[0] == "self"
+        if not over_self:
+            continue
+        tvars = {x.id for x in ast.walk(lp.target) if isinstance(x, ast.Name)}
+        body = lp if isinstance(lp, ast.For) else None
+        scope = ast.walk(body) if body is not None else ast.walk(fn.node)
+        for c in scope:
+            if isinstance(c, ast.Call) and (call_name(c).startswith(("nn.init.", "torch.nn.init.", "init.")) or (isinstance(c.func, ast.Attribute) and c.func.attr in ("normal_", "uniform_", "zero_", "fill_", "copy_"))):
+                used = {x.id for x in ast.walk(c) if isinstance(x, ast.Name)}
+                if used & tvars:
+                    out.append(c)
+    return out
+
+
+def _no_reinit_of_live(ck: Check, repo: Repo) -> None:
+    n = 0
+    for m in repo.mods.values():
+        if not (m.name.startswith("agilerl.modules") or m.name.startswith("agilerl.networks") or m.name.startswith("agilerl.wrappers.make_evolvable")):
+            continue
+        for cls in m.classes.values():
+            rec = cls.methods.get("recreate_network")
+            if rec is None:
+                continue
+            n += 1
+            seen, todo, bad = set(), [rec], []
+            depth = {rec.qualname: 0}
+            while todo:
+                f = todo.pop()
+                if f.qualname in seen:
+                    continue
+                seen.add(f.qualname)
+                for site in _reinit_sites(f):
+                    bad.append((f, site))
+                if depth[f.qualname] >= 2:
+                    continue
+                for c in calls_in(f.node, nested=True):
+                    nm = call_name(c)
+                    if nm.startswith("self.") and nm.count(".") == 1:
+                        for k in repo.mro(cls):
+                            if nm[5:] in k.methods:
+                                g = k.methods[nm[5:]]
+                                if g.qualname not in depth:
+                                    depth[g.qualname] = depth[f.qualname] + 1
+                                    todo.append(g)
+                                break
+            for f, site in bad or [(None, None)]:
+                ck.ob("C04.11", rec, site if site is not None else rec.node, site is None, f"{cls.name}.recreate_network leaves the live parameters untouched until they were carried over",
+                      detail=f"`{short(site, 70)}` in {f.qualname if f else ''} (run by recreate_network) re-initialises parameters registered on the module itself — "
+                             "the learned weights of the network that is being replaced — before preserve_parameters copies them: every mutation loses them" if site is not None else "",
+                      construct=f"{cls.name}.recreate_network: re-initialisation of live parameters" + (f" in {f.name}" if f else ""))
+    ck.floor("C04.11", n, 10, "recreate_network implementations examined")
+
+
+def _head_agreement(ck: Check, repo: Repo) -> None:
+    n = 0
+    for modname in ("agilerl.networks.value_networks", "agilerl.networks.q_networks", "agilerl.networks.actors"):
+        for cls in repo.mod(modname).classes.values():
+            b, r = cls.methods.get("build_network_head"), cls.methods.get("recreate_network")
+            if b is None or r is None:
+                continue
+            params = set(b.named_params)
+
+            def head_calls(fn: Fn) -> Dict[str, ast.Call]:
+                out: Dict[str, ast.Call] = {}
+                assigns = [a for a in walk_no_nested(fn.node) if isinstance(a, ast.Assign) and isinstance(a.value, ast.Call) and len(a.value.keywords) >= 2]
+                for a in assigns:
+                    t = dotted(a.targets[0])
+                    if t.startswith("self."):
+                        out[t[5:]] = a.value
+                    elif isinstance(a.targets[0], ast.Name):
+                        # local that is later stored (possibly through a preserve function / wrapper) into self.<attr>
+                        for a2 in walk_no_nested(fn.node):
+                            if isinstance(a2, ast.Assign) and dotted(a2.targets[0]).startswith("self.") and any(isinstance(x, ast.Name) and x.id == t for x in ast.walk(a2.value)):
+                                out.setdefault(dotted(a2.targets[0])[5:], a.value)
+                return out
+            bc, rc = head_calls(b), head_calls(r)
+            for attr in sorted(set(bc) & set(rc)):
+                if call_name(bc[attr]) != call_name(rc[attr]):
+                    continue
+                bk = {k.arg: k.value for k in bc[attr].keywords if k.arg}
+                rk = {k.arg: k.value for k in rc[attr].keywords if k.arg}
+                for k in sorted(set(bk) | set(rk)):
+                    if k in bk and k in rk:
+                        # the configuration is the constructor's argument at build time and the live description at rebuild time: not compared
+                        if isinstance(bk[k], ast.Name) and bk[k].id in params and f"self.{attr}." in ast.unparse(rk[k]):
+                            continue
+                        n += 1
+                        ck.ob("C04.9", r, rc[attr], ast.unparse(bk[k]) == ast.unparse(rk[k]), f"{cls.name}.{attr}: rebuilt with the same `{k}` as built",
+                              detail=f"build_network_head passes {k}={short(bk[k], 40)}, recreate_network passes {k}={short(rk[k], 40)}: with a different name every parameter key of the "
+                                     "rebuilt head differs from the old one, preserve_parameters finds no match and the whole head is re-initialised by every network-level mutation",
+                              construct=f"{cls.name}.{attr}: {call_name(bc[attr])}({k}=)")
+                    else:
+                        n += 1
+                        ck.ob("C04.9", r, rc[attr], False, f"{cls.name}.{attr}: built and rebuilt with the same keyword set ({k})", construct=f"{cls.name}.{attr}: {call_name(bc[attr])}({k}=)")
+    ck.floor("C04.9", n, 10, "keyword values compared between build_network_head and recreate_network")
+
+
+def _live_description(ck: Check, repo: Repo) -> None:
+    cls = repo.cls("agilerl.modules.multi_input", "EvolvableMultiInput")
+    prop = cls.methods.get("init_dicts")
+    if prop is None:
+        raise AnalysisError("EvolvableMultiInput.init_dicts not found")
+    cfg = CFG(prop.node)
+    from ..domains import conjuncts
+    rets = [n_ for n_ in cfg.live_nodes() if n_.kind == "stmt" and isinstance(n_.ast, ast.Return)]
+    stale = [r for r in rets if dotted(r.ast.value).startswith("self._")]
+    live = [r for r in rets if r not in stale]
+    ck.ob("C04.10", prop, prop.node, bool(stale) and bool(live), "EvolvableMultiInput.init_dicts has a stored answer and a live answer", construct="init_dicts: two answers")
+    for r in stale:
+        atoms = [(ast.unparse(a), p) for g, pol, _ in cfg.guards_at(r) for a, p in conjuncts(g, pol)]
+        ok = any(t.replace('"', "'").startswith("hasattr(self, 'feature_net')") and not p for t, p in atoms) and all(t.replace('"', "'").startswith("hasattr(self, 'feature_net')") for t, _ in atoms)
+        ck.ob("C04.10", prop, r.ast, ok, "the stored constructor argument is returned only while the feature extractors do not exist",
+              detail=f"returned under {atoms}: a clone (constructed WITH init_dicts) keeps describing the architecture it was born with; after a nested mutation the next clone "
+                     "is built with the old architecture, the state dict does not load (error swallowed) and the clone keeps random weights",
+              construct="EvolvableMultiInput.init_dicts: stored answer")
+
+
 def _sites(ck: Check, repo: Repo) -> None:
     n_sites = 0
     for f in repo.all_functions():
@@ -400,6 +537,24 @@ def _sites(ck: Check, repo: Repo) -> None:
                                         stored_ok = True
             ck.ob("C04.3", f, c, stored_ok, f"{label}: the preserved network replaces the attribute that `old` was read from",
                   detail=f"assigned to {tgt}; old read from {short(old, 40)}")
+            # the transfer may be skipped only when there is no old network (guards about that attribute) or by a parameter of the function
+            if ok_old:
+                from ..domains import conjuncts
+                attr = dotted(old)[5:]
+                foreign = []
+                for g, pol, _ in cfg.guards_at(n):
+                    for a, apol in conjuncts(g, pol):
+                        names = {x.id for x in ast.walk(a) if isinstance(x, ast.Name)} - {"self", "hasattr", "isinstance", "len"}
+                        attrs = {x.attr for x in ast.walk(a) if isinstance(x, ast.Attribute) and dotted(x.value) == "self"}
+                        consts = {x.value for x in ast.walk(a) if isinstance(x, ast.Constant) and isinstance(x.value, str)}
+                        about_old = attr in attrs or attr in consts
+                        by_param = bool(names) and names <= set(f.params) and not attrs
+                        if not (about_old or by_param):
+                            foreign.append(("" if apol else "not ") + ast.unparse(a))
+                ck.ob("C04.3", f, c, not foreign, f"{label}: the weights are carried over whenever the old network exists",
+                      detail=f"the transfer is additionally conditioned on {foreign}: on a path where self.{attr} exists but that condition is false the rebuilt network keeps its "
+                             "fresh initialisation (every mutation, also one stopped by a bound, re-initialises it)",
+                      construct=f"{f.qualname}: transfer condition for {attr}")
     ck.floor("C04.3", n_sites, 18, "preserve call sites in the package")
 
 
@@ -488,6 +643,11 @@ def _clone_overrides(ck: Check, repo: Repo) -> None:
 _MB = "agilerl/modules/base.py"
 _CNN = "agilerl/modules/cnn.py"
 VARIANTS = [
+    ("preserve-mode-not-carried-over", _MB, "        new_net.train(old_net.training)\n\n        return new_net\n\n    @staticmethod\n    def init_weights_gaussian", "        return new_net\n\n    @staticmethod\n    def init_weights_gaussian", "fire", "C04.1"),
+    ("bert-rebuild-resets-live-parameters", "agilerl/modules/bert.py", "        return nn.ModuleDict(encoder_dict), nn.ModuleDict(decoder_dict)\n", "        self._reset_parameters()\n\n        return nn.ModuleDict(encoder_dict), nn.ModuleDict(decoder_dict)\n", "fire", "C04.11"),
+    ("value-head-built-under-another-name", "agilerl/networks/value_networks.py", "            num_outputs=1,\n            name=\"value\",\n            net_config=net_config,", "            num_outputs=1,\n            name=\"critic\",\n            net_config=net_config,", "fire", "C04.9"),
+    ("make-evolvable-transfer-only-for-rainbow", "agilerl/wrappers/make_evolvable.py", "        if self.value_net is not None:\n            new_value_net = preserve_params_fn(", "        if self.rainbow:\n            new_value_net = preserve_params_fn(", "fire", "C04.3"),
+    ("multi-input-stored-description-preferred", "agilerl/modules/multi_input.py", "        if not hasattr(self, \"feature_net\"):\n            return self._init_dicts", "        if self._init_dicts or not hasattr(self, \"feature_net\"):\n            return self._init_dicts", "fire", "C04.10"),
     ("preserve-new-to-old", _MB, "                    param.data[slice_index] = old_param.data[slice_index]", "                    old_param.data[slice_index] = param.data[slice_index]", "fire", "C04.1"),
     ("preserve-different-index", _MB, "                    param.data[slice_index] = old_param.data[slice_index]", "                    param.data[slice_index] = old_param.data[: len(slice_index)]", "fire", "C04.1"),
     ("preserve-max", _MB, "slice(0, min(o, n)) for o, n in zip(old_size, new_size)", "slice(0, max(o, n)) for o, n in zip(old_size, new_size)", "fire", "C04.1"),
@@ -501,7 +661,7 @@ VARIANTS = [
     ("preserve-buffers-copy-ok", _MB, "                buffer.data = old_buffers[key].data\n", "                buffer.copy_(old_buffers[key])\n", "silent", None),
     ("preserve-skip-bias", _MB, "                elif \"norm\" not in key:\n                    # Create a slicing", "                elif \"norm\" not in key and \"bias\" not in key:\n                    # Create a slicing", "fire", "C04.1"),
     ("preserve-iter-old", _MB, "        old_net_dict = dict(old_net.named_parameters())\n\n        for key, param in new_net.named_parameters():", "        old_net_dict = dict(new_net.named_parameters())\n\n        for key, param in old_net.named_parameters():", "fire", "C04.1"),
-    ("preserve-return-old", _MB, "                buffer.data = old_buffers[key].data\n\n        return new_net\n\n    @staticmethod\n    def init_weights_gaussian", "                buffer.data = old_buffers[key].data\n\n        return old_net\n\n    @staticmethod\n    def init_weights_gaussian", "fire", "C04.1"),
+    ("preserve-return-old", _MB, "        new_net.train(old_net.training)\n\n        return new_net\n\n    @staticmethod\n    def init_weights_gaussian", "        new_net.train(old_net.training)\n\n        return old_net\n\n    @staticmethod\n    def init_weights_gaussian", "fire", "C04.1"),
     ("shrink-second-dim-old", _CNN, "min_1 = min(old_size[1], new_size[1])", "min_1 = old_size[1]", "fire", "C04.2"),
     ("shrink-mixed-index", _CNN, "                        param.data[:min_0, :min_1] = old_net_dict[key].data[\n                            :min_0, :min_1\n                        ]", "                        param.data[:min_0, :min_1] = old_net_dict[key].data[\n                            :min_1, :min_0\n                        ]", "fire", "C04.2"),
     ("mlp-swapped-args", "agilerl/modules/mlp.py", "            old_net=self.model, new_net=model\n", "            old_net=model, new_net=self.model\n", "fire", "C04.3"),
